@@ -20,7 +20,7 @@ def main():
     res_path = Path(os.environ.get('MUTANT_RESULTS', str(V / 'seeded' / 'RESULTS.json')))
     if res_path.exists():
         out = json.loads(res_path.read_text())
-    for d in sorted((V / 'seeded').glob('C*-[a-h]')):
+    for d in sorted((V / 'seeded').glob('C*-[a-z]')):
         name = d.name
         if only and name not in only and name.split('-')[0] not in only:
             continue
